@@ -71,18 +71,7 @@ struct Shape {
 template<typename T>
 struct OwnTree : rb::container<T> {
    rb::node<T>* root_node() const { return this->root; }
-   // The library provides no destructor (a C19 matter, not C08's): release nodes here so
-   // that one run's garbage does not eat the arena.
-   void destroy(rb::node<T>* n)
-   {
-      if (n == nullptr) return;
-      destroy(n->left());
-      destroy(n->right());
-      n->data.~T();
-      ::operator delete(n);
-   }
-   // (When the library's own destructor releases the nodes, it finds an empty tree.)
-   ~OwnTree() { destroy(this->root); this->root = nullptr; this->count = 0; }
+   // The container owns and releases its nodes (how it obtains their storage is its own business).
 };
 
 struct IntCmp {
